@@ -1028,8 +1028,9 @@ class ComplexGammatoneFilterBank(LinearFilterBank):
             )
             alpha = np.exp(log_alpha)
             if scale_l2_norm:
-                log_c = 0.5 * (log_2 + log_alpha + log_double_factorial)
-                log_c -= order * (log_alpha + log_2)
+                # ||h||^2 = c ** 2 * (2n - 2)! / (2 * alpha) ** (2n - 1)
+                log_c = 0.5 * (2 * order - 1) * (log_alpha + log_2)
+                log_c -= 0.5 * log_double_factorial
             else:
                 log_c = order * log_alpha - log_factorial
             c = np.exp(log_c)
